@@ -6,6 +6,7 @@ import Heathcliff.Proofs.C20G
 import Heathcliff.Proofs.C20H
 import Heathcliff.Proofs.C20I
 import Heathcliff.Proofs.C20J
+import Heathcliff.Proofs.C20K
 
 /- Property C20: homomorphic matrix products and convolutions equal plaintext ones, all shapes.
    Property theorems only (proofs are the helper lemmas of Heathcliff/Proofs/C20*.lean). -/
@@ -225,14 +226,57 @@ theorem bolt_rot_bsgs {α : Type} (n g a b : Nat) (v : Nat → α) (i : Nat) :
 theorem bolt_rot_mod {α : Type} (n s : Nat) (v : Nat → α) (i : Nat) : c20_rot n (s % n) v i = c20_rot n s v i :=
   HC.c20_rot_mod n s v i
 
-/-- End-to-end statement for a BOLT helper, as a schema over its (unmodelled) slot-level pipeline `run m r n N t x w`: for every
-    shape the decoded result is the matrix product modulo t.  NOT proved: the encode maps / rotation schedules of `bolt_cp`,
-    `bolt_cc_cr`, `bolt_cc_dc` are not modelled; the three helpers are covered by the end-to-end runs of the harness (exhaustive small
-    shapes at N = 8, 16, 32 and random larger shapes; labelled tests). -/
-def BoltStatement (run : Nat → Nat → Nat → Nat → Nat → (Nat → Nat) → (Nat → Nat) → Option (Nat → Nat)) : Prop :=
-  ∀ m r n N t (x w : Nat → Nat), 1 ≤ m → 1 ≤ r → 1 ≤ n → 2 ≤ t →
-    ∃ y, run m r n N t x w = some y ∧
-      ∀ i j, i < m → j < n → y (i * n + j) = (∑ k ∈ range r, (x (i * r + k) % t) * (w (k * n + j) % t)) % t
+/-! ### BOLT: the MODEL of the three helpers (`Model/Matmul.lean`: encode maps, rotation schedules on slot vectors, decode maps) is
+     compared with the code bit for bit (`bolt_*_encx/encw/enco/run` lines).  Proved about the model: the slot actions and the
+     baby-step / giant-step algebra of `bolt_cp`.  The end-to-end statements below are concrete statements about the model
+     (they replace the former schema `BoltStatement`); they are NOT proved. -/
+
+/-- `rotate_rows` by `a` whole columns, read at column `c`, entry `j` (slot = column·gap + entry, N = 2·half·gap) -/
+theorem bolt_rotRows_col : type_of% @HC.c20_rotRows_col := @HC.c20_rotRows_col
+/-- `rotate_columns`, read at column `c` -/
+theorem bolt_swapRows_col : type_of% @HC.c20_swapRows_col := @HC.c20_swapRows_col
+
+/-- **baby steps of `bolt_cp`**: after `ir` steps of the model's input-rotation loop, column `c` of the rotated input polynomial
+    holds the original column `boltShift half c ir` (the index `a_shift_index` that `encode_weights` assumes) -/
+theorem bolt_cp_baby_steps : type_of% @HC.c20_boltCpRotIn_col := @HC.c20_boltCpRotIn_col
+
+/-- **baby-step / giant-step re-indexing**: as the total rotation runs over all `s = 2·half` values, the column read at column `k`
+    runs over all columns exactly once: `Σ_rot f(boltShift half k rot) = Σ_c f(c)` -/
+theorem bolt_bsgs_sum : type_of% @HC.c20_bolt_bsgs_sum := @HC.c20_bolt_bsgs_sum
+
+theorem bolt_shift_lt : type_of% @HC.c20_boltShift_lt := @HC.c20_boltShift_lt
+theorem bolt_shift_split : type_of% @HC.c20_boltShift_split := @HC.c20_boltShift_split
+theorem bolt_shift_step : type_of% @HC.c20_shift_step := @HC.c20_shift_step
+
+/-- End-to-end statement for `MatmulBoltCp` over the MODEL, any commutative ring (S = ZMod t: the product modulo t): NOT proved -/
+def BoltCpStatement : Prop :=
+  ∀ (S : Type) [CommRing S] (m r n N : Nat) (h : BoltCp) (x w : Nat → S), BoltCp.new m r n N = .ok h → (∃ e, N = 2^e) →
+    ∃ X W Y out, boltCpEncodeInputs h 0 x (m * r) = .ok X ∧ boltCpEncodeWeights h 0 w (r * n) = .ok W ∧
+      boltCpMultiply h (· + ·) (· * ·) 0 X W = .ok Y ∧ boltCpDecodeOutputs h 0 Y = .ok out ∧
+      ∀ i j, i < m → j < n → out.getD (i * n + j) 0 = ∑ k ∈ range r, x (i * r + k) * w (k * n + j)
+
+/-- ... for `MatmulBoltCcCr`: NOT proved -/
+def BoltCcCrStatement : Prop :=
+  ∀ (S : Type) [CommRing S] (m r n N : Nat) (h : BoltCc) (x w : Nat → S), BoltCc.newCr m r n N = .ok h → (∃ e, N = 2^e) →
+    ∃ X W Y out, boltCrEncodeInputs h 0 x (m * r) = .ok X ∧ boltCrEncodeWeights h 0 w (r * n) = .ok W ∧
+      boltCrMultiply h (· + ·) (· * ·) 0 X W = .ok Y ∧ boltCrDecodeOutputs h 0 Y = .ok out ∧
+      ∀ i j, i < m → j < n → out.getD (i * n + j) 0 = ∑ k ∈ range r, x (i * r + k) * w (k * n + j)
+
+/-- ... for `MatmulBoltCcDc`: NOT proved -/
+def BoltCcDcStatement : Prop :=
+  ∀ (S : Type) [CommRing S] (m r n N : Nat) (h : BoltCc) (x w : Nat → S), BoltCc.newDc m r n N = .ok h → (∃ e, N = 2^e) →
+    ∃ X W Y out, boltDcEncodeInputs h 0 x (m * r) = .ok X ∧ boltDcEncodeWeights h 0 w (r * n) = .ok W ∧
+      boltDcMultiply h (· + ·) (· * ·) 0 X W = .ok Y ∧ boltDcDecodeOutputs h 0 Y = .ok out ∧
+      ∀ i j, i < m → j < n → out.getD (i * n + j) 0 = ∑ k ∈ range r, x (i * r + k) * w (k * n + j)
+
+/-- the model's `bolt_cp` pipeline on a concrete instance (N = 8, 3×2·2×3 over ℤ/17): the schedule computes the product -/
+example : (do
+    let h ← BoltCp.new 3 2 3 8
+    let X ← boltCpEncodeInputs h 0 (fun i => [1, 2, 3, 4, 5, 6].getD i 0) 6
+    let W ← boltCpEncodeWeights h 0 (fun i => [7, 8, 9, 10, 11, 12].getD i 0) 6
+    let Y ← boltCpMultiply h (fun a b => (a + b) % 17) (fun a b => (a * b) % 17) 0 X W
+    boltCpDecodeOutputs h 0 Y) = .ok #[27 % 17, 30 % 17, 33 % 17, 61 % 17, 68 % 17, 75 % 17, 95 % 17, 106 % 17, 117 % 17] := by
+  decide +kernel
 
 /-! non-vacuity: concrete shapes satisfy the hypotheses and the searches return the blocks the code returns -/
 example : mmSearch 8 3 4 2 .cipherPlain = ⟨3, 1, 2, 5⟩ := by decide
